@@ -161,6 +161,35 @@ def check_purity(facts, run, eff, cg, selftest):
                             tgt = v.get("resolved") or v["path"]
                             if tgt in facts.fns:
                                 inits.add(tgt)
+    # a once-cell initialised by a closure that captures values of its caller takes its value from the first call
+    ncells = 0
+    for p, f in sorted(facts.fns.items()):
+        if f["kind"] not in ("Fn", "AssocFn", "Closure"):
+            continue
+        ftp = None
+        for bi, b in enumerate(f["blocks"]):
+            t = b["term"]
+            if b["cleanup"] or t["k"] != "call" or t["func"].get("k") != "fn":
+                continue
+            n = strip_generics(t["func"].get("resolved") or t["func"]["path"])
+            if not (n.endswith("OnceLock::get_or_init") or n.endswith("OnceLock::get_or_try_init") or n.endswith("Once::call_once") or n.endswith("OnceLock::set")
+                    or n.endswith("OnceCell::get_or_init") or n.endswith("LazyLock::force") and False):
+                continue
+            ncells += 1
+            if ftp is None:
+                ftp = fn_terms(facts, p)
+            args = [ftp.operand(a, bi, len(b["stmts"])) for a in t["args"]]
+            captured = []
+            for a in args[1:]:
+                for x in walk(a):
+                    if x[0] == "agg" and x[1] == "closure":
+                        captured += [o for o in x[3] if not is_const(o)]
+                    if n.endswith("::set") and not is_const(a):
+                        captured.append(a)
+            run.inst("C13.P2", "init-argument-free:%s@%s" % (n.split("::")[-1], _short(p)), not captured,
+                     "once-cell initialised in %s: %s" % (p.split("::")[-1], "initialiser takes nothing from the calling context" if not captured else
+                                                          "the initialiser captures %s of the first caller, so the stored value depends on call history" % [fmt(c)[:40] for c in captured[:2]]),
+                     where(t["span"]))
     # the thread-local initialiser: every function nested under a thread_local! item
     for sp, s in facts.statics.items():
         if s["thread_local"]:
